@@ -6,6 +6,7 @@
 -/
 import Scico.Common.Wire
 import Scico.Model.Prox
+import Scico.Proofs.ProxTables
 open Lean Scico Scico.Wire Scico.Prox
 
 def vecOf (l : List Float) (n : Nat) : Vec Float n := Vec.memo (Vec.ofListN l n)
@@ -24,11 +25,8 @@ def outCm {n} (v : Vec (Float × Float) n) (m : Float) : Json :=
 /-- the transcendental primitives of `_cbrt` / the complex power at `Float` (libm) -/
 instance : HasTrig Float := ⟨Float.cos, Float.sin, Float.atan2, Float.cbrt, 3.141592653589793⟩
 
-/-- the literal `1e-7` of `loss._dep_cubic_root` -/
-def cubicEps : Float := 1e-7
-
 /-- which regime of `_dep_cubic_root` an entry falls into -/
-def cubicBranch (p q : Float) : String :=
+def cubicBranch (cubicEps p q : Float) : String :=
   if p.abs ≤ cubicEps then (if p == 0 then "p=0" else "band") else
   let d := q * q / 4 + p * p * p / 27
   if d < 0 then "delta<0" else if d == 0 then "delta=0" else "delta>0"
@@ -305,6 +303,11 @@ def handler : Handler := fun op j =>
     let lam ← fFloat? j "lam"; let sc ← fFloat? j "scale"
     if a.length != m * n || w.length != m || y.length != m || v.length != n || x.length != n then none else
     some (ok (outR (sqL2LossSysResidual sc (vecOf w m) (matOf a m n) (vecOf y m) (vecOf v n) (vecOf x n) lam)))
+  | "defaults" =>
+    -- the default arguments recorded in `Scico.ProxTables.expectedDefaults` (checked against the source by the generated obligations):
+    -- the band literal of `_dep_cubic_root`, `tol`/`maxiter` of the CG path, constructor defaults
+    some (ok (jObj [("defaults", jArr (Scico.ProxTables.expectedDefaults.map fun r => jArr [jS r.1, jS r.2.1, jS r.2.2])),
+      ("covered", jArr (Scico.ProxTables.covered.map jS))]))
   | "param_after" => do
     let p0 ← fFloat? j "p0"; let l ← fFloats? j "assigns"
     some (ok (jObj [("p", jF (paramAfter p0 l))]))
@@ -323,21 +326,24 @@ def handler : Handler := fun op j =>
     -- the model of `loss._dep_cubic_root` on arrays p, q
     let p ← fFloats? j "p"; let q ← fFloats? j "q"
     if p.length != q.length then none else
-    let r := List.zipWith (fun a b => depCubicRoot cubicEps a b) p q
-    let br := List.zipWith cubicBranch p q
+    let eps ← fFloat? j "eps"
+    let r := List.zipWith (fun a b => depCubicRoot eps a b) p q
+    let br := List.zipWith (cubicBranch eps) p q
     some (ok (jObj [("r", jFs r), ("branch", Json.arr (br.map Json.str).toArray)]))
   | "sql2sqabs_full" => do
     let v ← fFloats? j "v"; let y ← fFloats? j "y"; let w ← fFloats? j "w"
     let lam ← fFloat? j "lam"; let sc ← fFloat? j "scale"
     let n := v.length
     if !sameLen n [y, w] then none else
-    some (ok (outR (sqL2SqAbsProxFull cubicEps sc (vecOf w n) (vecOf y n) (vecOf v n) lam)))
+    let eps ← fFloat? j "eps"
+    some (ok (outR (sqL2SqAbsProxFull eps sc (vecOf w n) (vecOf y n) (vecOf v n) lam)))
   | "sql2sqabs_fullc" => do
     let vre ← fFloats? j "vre"; let vim ← fFloats? j "vim"; let y ← fFloats? j "y"; let w ← fFloats? j "w"
     let lam ← fFloat? j "lam"; let sc ← fFloat? j "scale"
     let n := vre.length
     if !sameLen n [vim, y, w] then none else
-    some (ok (outC (sqL2SqAbsProxFullC cubicEps sc (vecOf w n) (vecOf y n) (cvecOf vre vim n) lam)))
+    let eps ← fFloat? j "eps"
+    some (ok (outC (sqL2SqAbsProxFullC eps sc (vecOf w n) (vecOf y n) (cvecOf vre vim n) lam)))
   | "nuclear_full" => do
     -- `svdU @ diag(maximum(0, svdS - lam)) @ svdV` from the SVD factors (row-major), and `U diag(s) Vh` itself
     let m ← fNat? j "m"; let n ← fNat? j "n"; let k ← fNat? j "k"
